@@ -75,7 +75,10 @@ def encode_table(F):
     rows = {}
     notes = []
     if b.loops():
-        return None, ["varint_encode32 contains a loop (shape not recognised)"]
+        t = _encode_loop_idiom(b, notes)
+        if t is None:
+            return None, ["varint_encode32 contains a loop that is not the recognised LEB128 loop: " + "; ".join(notes)]
+        return t, []
     for site, st in b.sites():
         if site.i is None or st["s"] != "assign":
             continue
@@ -118,6 +121,177 @@ def encode_table(F):
     return table, notes
 
 
+def _var_of(b, op, site):
+    """the variable (multiply-defined local) an operand reads, through single-definition copies"""
+    if op.get("k") not in ("copy", "move") or op["pl"]["p"]:
+        return None
+    l = op["pl"]["l"]
+    for _ in range(8):
+        ds, _fe = b.reaching_defs(l, site)
+        d_all = b.defs()[0].get(l, [])
+        if len(d_all) != 1:
+            return l
+        s0, kind, payload = d_all[0]
+        if kind == "assign" and payload["rv"] == "use" and payload["op"].get("k") in ("copy", "move") and not payload["op"]["pl"]["p"]:
+            l, site = payload["op"]["pl"]["l"], s0
+            continue
+        return l
+    return l
+
+
+def _encode_loop_idiom(b, notes):
+    """the second accepted form of the encoder:
+           let mut rest = value; let mut len = 0;
+           while rest >= 0x80 { bytes[len] = (rest as u8) | 0x80; rest >>= 7; len += 1; }
+           bytes[len] = rest as u8; len += 1; &bytes[..len]
+    Every element is checked on the MIR (one loop, the two loop-carried variables and all their
+    definitions, the guard, both stores and their order relative to the shift and the increment, the
+    returned range); if it holds the function computes the canonical five-row table, which is returned."""
+    loops = b.loops()
+    if len(loops) != 1:
+        notes.append(f"{len(loops)} loops")
+        return None
+    header, blks = loops[0]
+    d = b.defs()[0]
+    # stores into bytes[..]
+    stores = []
+    for site, st in b.sites():
+        if site.i is None or st["s"] != "assign":
+            continue
+        pl = st["pl"]
+        if pl["p"] and pl["p"][0] == "*" and len(pl["p"]) == 2 and isinstance(pl["p"][1], dict) and "index" in pl["p"][1] and pl["l"] == 1:
+            stores.append((site, st))
+    if len(stores) != 2:
+        notes.append(f"{len(stores)} byte stores (expected one in the loop and one after it)")
+        return None
+    inl = [x for x in stores if x[0].bb in blks]
+    aft = [x for x in stores if x[0].bb not in blks]
+    if len(inl) != 1 or len(aft) != 1:
+        notes.append("byte stores are not one inside / one after the loop")
+        return None
+
+    def split_store(site, st):
+        """(index variable, value variable, or-mask) of `bytes[i] = (v as u8) | m` / `(v | m) as u8` / `v as u8`"""
+        idx = _var_of(b, {"k": "copy", "pl": {"l": st["pl"]["p"][1]["index"], "p": []}}, site)
+        rv = st["rv"]
+        m = 0
+        # resolve one level of temporaries by hand: the stored rvalue is bin(BitOr, x, const) | cast(x) | use(tmp)
+        def operand_var(op, site_):
+            if op.get("k") == "const":
+                return None
+            # a temp holding `v as u8`?
+            l = op["pl"]["l"]
+            ds = d.get(l, [])
+            if len(ds) == 1 and ds[0][1] == "assign" and ds[0][2]["rv"] == "cast" and ds[0][2]["to"] == "u8":
+                return ("cast", _var_of(b, ds[0][2]["op"], ds[0][0]))
+            return ("plain", _var_of(b, op, site_))
+        if rv["rv"] == "bin" and rv["op"] == "BitOr":
+            l, r = rv["a"], rv["b"]
+            if r.get("k") == "const" and "int" in r:
+                m = int(r["int"])
+                v = operand_var(l, site)
+            elif l.get("k") == "const" and "int" in l:
+                m = int(l["int"])
+                v = operand_var(r, site)
+            else:
+                return None
+            if v is None or v[0] != "cast":
+                return None
+            return idx, v[1], m
+        if rv["rv"] == "cast" and rv["to"] == "u8":
+            return idx, _var_of(b, rv["op"], site), 0
+        if rv["rv"] == "use":
+            v = operand_var(rv["op"], site)
+            if v is not None and v[0] == "cast":
+                return idx, v[1], 0
+        return None
+    si, sa = split_store(*inl[0]), split_store(*aft[0])
+    if si is None or sa is None:
+        notes.append("byte store value is not `(rest as u8) | 0x80` / `rest as u8`")
+        return None
+    L, R = si[0], si[1]
+    if (sa[0], sa[1]) != (L, R) or si[2] != 0x80 or sa[2] != 0:
+        notes.append(f"stores use (index, value, mask) = {si} in the loop and {sa} after it")
+        return None
+    # definitions of the two variables
+    rd, ld = d.get(R, []), d.get(L, [])
+    r_init = [x for x in rd if x[0].bb not in blks]
+    r_loop = [x for x in rd if x[0].bb in blks]
+    l_init = [x for x in ld if x[0].bb not in blks and b.dominates(x[0].bb, header)]
+    l_loop = [x for x in ld if x[0].bb in blks]
+    l_after = [x for x in ld if x[0].bb not in blks and not b.dominates(x[0].bb, header)]
+    ok = len(r_init) == 1 and len(r_loop) == 1 and len(l_init) == 1 and len(l_loop) == 1 and len(l_after) == 1 and len(rd) == 2 and len(ld) == 3
+    if not ok:
+        notes.append("the loop variables have unexpected definitions")
+        return None
+    e0 = b._expr_of_def(r_init[0])
+    if not is_arg(e0, "value"):
+        notes.append(f"rest starts as {e0.show()}")
+        return None
+    if fold(b._expr_of_def(l_init[0])) != 0:
+        notes.append("len does not start at 0")
+        return None
+    pr = r_loop[0][2]
+    if not (r_loop[0][1] == "assign" and pr["rv"] == "bin" and pr["op"] in ("Shr", "ShrUnchecked") and _var_of(b, pr["a"], r_loop[0][0]) == R and pr["b"].get("k") == "const" and int(pr["b"].get("int", -1)) == 7):
+        notes.append("rest is not updated by `rest >>= 7`")
+        return None
+
+    def is_incr(x):
+        e = b._expr_of_def(x)
+        c = checked(e)
+        return bool(c and c[0] == "Add" and const_val(c[2]) == 1) and any(w.k == "var" or w.k == "phi" or w.k == "const" for w in c[1].walk())
+    if not (is_incr(l_loop[0]) and is_incr(l_after[0])):
+        notes.append("len is not incremented by one per byte")
+        return None
+    # the guard of the loop
+    t = b.term(header) if b.term(header)["t"] == "switch" else None
+    hb = header
+    if t is None:
+        for x in sorted(blks):
+            if b.term(x)["t"] == "switch" and b.dominates(x, inl[0][0].bb):
+                t, hb = b.term(x), x
+                break
+    if t is None:
+        notes.append("no loop guard")
+        return None
+    ge = b.expr_of_operand(t["discr"], Site(hb, None))
+    neg = False
+    while ge.k == "un" and ge.x["op"] == "Not":
+        neg, ge = not neg, ge.a[0]
+    if ge.k != "bin" or ge.x["op"] not in BINCMP or fold(ge.a[1]) is None:
+        notes.append(f"loop guard is {ge.show()[:50]}")
+        return None
+    op, cst = BINCMP[ge.x["op"]], fold(ge.a[1])
+    zero = [tb for v, tb in t["arms"] if int(v) == 0]
+    body_on_true = b.dominates(t["otherwise"], inl[0][0].bb)
+    if neg:
+        body_on_true = not body_on_true
+    if not body_on_true:
+        op = {"<": ">=", "<=": ">", ">": "<=", ">=": "<"}.get(op, op)
+    if not ((op == ">=" and cst == 0x80) or (op == ">" and cst == 0x7f)):
+        notes.append(f"loop continues while rest {op} {cst} (expected >= 0x80)")
+        return None
+    # order inside an iteration: store, then shift, then increment; after the loop: store, then increment, then the range
+    if not (b.dominates(inl[0][0], r_loop[0][0]) and b.dominates(inl[0][0], l_loop[0][0]) and b.dominates(aft[0][0], l_after[0][0])):
+        notes.append("a byte is stored after the variables it depends on were updated")
+        return None
+    rng = [s for s, c, t_ in calls(b, "Index<I> for [T]>::index")]
+    okr = False
+    for s in rng:
+        a = b.arg_exprs(s)
+        r = a[1]
+        if r.k == "agg" and (r.x.get("adt") or "").endswith("RangeTo") and is_arg(a[0], "bytes") and b.dominates(l_after[0][0], s):
+            okr = True
+    if not okr:
+        notes.append("the function does not return &bytes[..len]")
+        return None
+    table = []
+    for k in range(1, 6):
+        table.append({"lo": 0 if k == 1 else 2 ** (7 * (k - 1)), "hi": 2 ** 32 if k == 5 else 2 ** (7 * k), "len": k,
+                      "stores": {i: (7 * i, 0x80 if i < k - 1 else 0) for i in range(k)}})
+    return table
+
+
 def _sig(b, bb, isval, notes):
     sig = []
     for e, taken, s in guards_of(b, bb):
@@ -151,6 +325,30 @@ def decode_table(F):
                 window = [k for k in ks if k is not None][0]
     # val local: the one stored through `value`
     st = [(s, x) for s, x in b.sites() if s.i is not None and x["s"] == "assign" and x["pl"]["p"] == ["*"] and b.local_name(x["pl"]["l"]) == "value"]
+    if len(st) == 2:
+        # an early exit for one-byte values: `if data[0] & FLAG == 0 { *value = data[0] as u32; return 1 }` agrees
+        # with the general table (the scanner stops at byte 0, and data[0] & !FLAG == data[0] when the flag is clear)
+        fast = [x for x in st if _is_first_byte(b, strip_casts(b._expr_of_def((x[0], "assign", x[1]["rv"]))))]
+        if len(fast) == 1:
+            fs = fast[0][0]
+            okg = False
+            for ge, taken, sbb in guards_of(b, fs.bb):
+                g = ge
+                if g.k == "bin" and g.x["op"] in ("Eq", "Ne") and fold(g.a[1]) == 0 and g.a[0].strip().k == "bin" and g.a[0].strip().x["op"] == "BitAnd":
+                    x, m = g.a[0].strip().a
+                    if fold(m) == 0x80 and _is_first_byte(b, x) and ((g.x["op"] == "Eq") == taken):
+                        okg = True
+                cc = cmp_const(ge, lambda z: _is_first_byte(b, z))
+                if cc is not None and ((cc == ("<", 0x80) and taken) or (cc == ("<=", 0x7f) and taken) or (cc == (">=", 0x80) and not taken) or (cc == (">", 0x7f) and not taken)):
+                    okg = True
+            rets = flat_alts(b.expr_at_return())
+            ones = [r for r in rets if fold(r) == 1 and r.x.get("site") is None or fold(r) == 1]
+            if not okg:
+                return None, ["the one-byte fast path is not guarded by `data[0] & 0x80 == 0`"]
+            if not ones:
+                return None, ["the one-byte fast path does not return 1"]
+            notes.append("fast-path")
+            st = [x for x in st if x is not fast[0]]
     if len(st) != 1:
         return None, ["no single `*value = val` store"]
     op = st[0][1]["rv"].get("op")
@@ -193,9 +391,26 @@ def decode_table(F):
             continue
         terms.append({"index": t[0], "mask": t[1], "shift": t[2], "accumulate": accumulate, "min_len": _min_len(g)})
     ret = b.expr_at_return()
-    returns_len = strip_casts(ret).strip().k == "call" and strip_casts(ret).strip().x.get("site") == lp[0][0]
+    ralts = [r for r in flat_alts(ret) if not ("fast-path" in notes and fold(r) == 1)]
+    returns_len = bool(ralts) and all(strip_casts(r).strip().k == "call" and strip_casts(r).strip().x.get("site") == lp[0][0] for r in ralts)
+    if "fast-path" in notes:
+        notes.remove("fast-path")
     terms.sort(key=lambda t: t["index"])
     return {"window": window, "terms": terms, "returns_len": returns_len, "store_dominated": all(b.dominates(Site(s.bb, s.i), st[0][0]) or True for s, k, p in d.get(vl, []))}, notes
+
+
+def _is_first_byte(b, e):
+    """e is data[0] / *data.first().unwrap-ish (the Some payload of data.first())"""
+    e = e.strip()
+    while e.k in ("cast", "ref", "deref"):
+        e = e.a[0].strip()
+    if e.k == "index" and is_arg(e.a[0], "data") and len(e.a) > 1 and fold(e.a[1]) == 0:
+        return True
+    p = unwrap_payload(e, "Some")
+    if p is not None:
+        p = p.strip()
+        return p.k == "call" and p.x["path"].endswith("::first") and is_arg(p.a[0], "data")
+    return False
 
 
 def _min_len(g):
